@@ -842,7 +842,7 @@ func (a *acc) routeMisfit(s *spec, m *misfit, which string) {
 		if which == "method" {
 			stage = "method-arg"
 		}
-		a.fail(in, s, "changed", stage, "number-cut-to-size", fmt.Sprintf("`%s` with p = %s and a target of type %s: the number was accepted and came back as another number", src, m.name, s.t), "false", "true, or an error")
+		a.fail(in, s, "changed", stage, "number-cut-to-size", fmt.Sprintf("`%s` with p = %s and a target of type %s: the value was accepted and came back as another value", src, m.name, s.t), "false", "true, or an error")
 	}
 	if kind == "panic" || kind == "vmpanic" {
 		// same stages as the fitted routes: the signature names the defect (site + cause), not the family that found it
